@@ -9,10 +9,11 @@ Ports are bound with port 0 once per process (fork-safe: create peers in `Family
 
 Steps (lists, JSON-friendly):
   ["read_line", timeout]        read application bytes until CRLF, EOF or timeout
+  ["read_request", timeout]     read one whole request: the line and, for titan://…;size=N, N content bytes
   ["read_n", n, timeout]        read until n application bytes have arrived in total
   ["read_eof", timeout]         read until EOF (close_notify / FIN), error or timeout
   ["drain"]                     take whatever is already readable, without waiting
-  ["send", bytes | hex-str]     sendall
+  ["send", bytes | hex-str]     sendall (skipped once the client has closed, unless a third element "force" is given)
   ["sleep", seconds]
   ["close"]                     FIN without close_notify (what a crashing server does)
   ["close_notify"]              TLS shutdown, then close
@@ -30,6 +31,7 @@ import contextlib
 import datetime
 import hashlib
 import os
+import re
 import shutil
 import socket
 import ssl
@@ -96,28 +98,36 @@ class CertStore:
     KINDS = {"rsa": ("rsa", False), "ec": ("ec", False), "ed": ("ed", False), "hostile": ("ec", True), "ec2": ("ec", False)}
 
     def __init__(self, names=("rsa", "ec", "ed", "hostile")):
-        self.dir = tempfile.mkdtemp(prefix="nv-certs-")
-        self.certs: dict[str, CertInfo] = {}
-        for n in names:
-            kind, hostile = self.KINDS[n]
-            self.certs[n] = _make_cert(kind, self.dir, n, hostile)
+        d = tempfile.mkdtemp(prefix="nv-certs-")
+        try:
+            self.certs: dict[str, CertInfo] = {}
+            self._ctx: dict[str, ssl.SSLContext] = {}
+            for n in names:
+                kind, hostile = self.KINDS[n]
+                self.certs[n] = _make_cert(kind, d, n, hostile)
+                c = ssl.SSLContext(ssl.PROTOCOL_TLS_SERVER)
+                c.minimum_version = ssl.TLSVersion.TLSv1_2
+                c.num_tickets = 0   # no post-handshake records: the peer's byte log is application data only
+                c.load_cert_chain(self.certs[n].certfile, self.certs[n].keyfile)
+                self._ctx[n] = c
+        finally:
+            # the contexts hold the key material in memory; nothing is left on disk
+            shutil.rmtree(d, ignore_errors=True)
         assert not self.certs.get("hostile") or not self.certs["hostile"].readable, "hostile certificate is readable"
-        self._ctx: dict[str, ssl.SSLContext] = {}
 
     def __getitem__(self, name: str) -> CertInfo:
         return self.certs[name]
 
     def ctx(self, name: str) -> ssl.SSLContext:
-        c = self._ctx.get(name)
-        if c is None:
-            c = ssl.SSLContext(ssl.PROTOCOL_TLS_SERVER)
-            c.minimum_version = ssl.TLSVersion.TLSv1_2
-            c.load_cert_chain(self.certs[name].certfile, self.certs[name].keyfile)
-            self._ctx[name] = c
-        return c
+        return self._ctx[name]
+
+    def x509(self, name: str):
+        from cryptography import x509
+
+        return x509.load_der_x509_certificate(self.certs[name].der)
 
     def close(self) -> None:
-        shutil.rmtree(self.dir, ignore_errors=True)
+        pass
 
 
 # ----------------------------------------------------------------------------
@@ -132,7 +142,7 @@ class TLSPeer:
 
     def __init__(self, certs: CertStore, default_cert: str = "ec", default_steps=None, hs_timeout: float = 3.0):
         self.certs = certs
-        self.default = {"cert": default_cert, "steps": default_steps or [["read_line", 2.0], ["send", b"20 text/gemini\r\nok\n"], ["close"]]}
+        self.default = {"cert": default_cert, "steps": default_steps or [["read_request", 2.0], ["send", b"20 text/gemini\r\nok\n"], ["close"]]}
         self.queue: deque = deque()
         self.log: list[dict] = []
         self.lock = threading.Lock()
@@ -220,7 +230,7 @@ class TLSPeer:
                 return
             with self.lock:
                 script = self.queue.popleft() if self.queue else self.default
-                entry = {"cert": script["cert"], "hs": False, "rx": b"", "err": None}
+                entry = {"cert": script["cert"], "hs": False, "rx": b"", "err": None, "t": time.monotonic_ns(), "port": self.port}
                 self.log.append(entry)
                 t = threading.Thread(target=self._handle, args=(conn, script, entry), daemon=True)
                 self.handlers.append(t)
@@ -266,6 +276,17 @@ class TLSPeer:
                     end = time.monotonic() + step[1]
                     while b"\r\n" not in buf and time.monotonic() < end and recv_some(end - time.monotonic()):
                         pass
+                elif op == "read_request":
+                    # a whole Gemini request (line) or Titan request (line + `size=` content bytes)
+                    end = time.monotonic() + step[1]
+                    while b"\r\n" not in buf and time.monotonic() < end and recv_some(end - time.monotonic()):
+                        pass
+                    if b"\r\n" in buf:
+                        line = bytes(buf[:buf.index(b"\r\n")])
+                        m = re.search(rb";size=(\d+)", line) if line.startswith(b"titan://") else None
+                        want = len(line) + 2 + (int(m.group(1)) if m else 0)
+                        while len(buf) < want and time.monotonic() < end and recv_some(end - time.monotonic()):
+                            pass
                 elif op == "read_n":
                     end = time.monotonic() + step[2]
                     while len(buf) < step[1] and time.monotonic() < end and recv_some(end - time.monotonic()):
@@ -278,6 +299,8 @@ class TLSPeer:
                     while recv_some(0.02):
                         pass
                 elif op == "send":
+                    if eof and not (len(step) > 2 and step[2] == "force"):
+                        continue          # the client has already closed: an answer would only be noise
                     conn.settimeout(10.0)
                     try:
                         conn.sendall(_b(step[1]))
